@@ -131,6 +131,35 @@ Fixpoint ssel_eqb (a b : ssel) {struct a} : bool :=
   end.
 Fixpoint ssels_eqb (a b : list ssel) : bool :=
   match a, b with [], [] => true | x :: r, y :: r' => ssel_eqb x y && ssels_eqb r r' | _, _ => false end.
+(* sibling fragments that repeat an earlier sibling word for word select nothing new; the code produces them where the
+   model does not (and the other way round) when a field object shared between the per-type copies of a fragment is
+   merged with itself (pointer sharing, which a pure model cannot reproduce): both sides are compared without them *)
+Fixpoint norm_sel (s : ssel) {struct s} : ssel :=
+  match s with
+  | SanField a n t d sub =>
+      SanField a n t d ((fix go (l : list ssel) (acc : list ssel) :=
+                           match l with
+                           | [] => acc
+                           | x :: r => let y := norm_sel x in
+                                       go r (match y with
+                                             | SanFrag _ _ _ _ => if existsb (ssel_eqb y) acc then acc else acc ++ [y]
+                                             | _ => acc ++ [y]
+                                             end)
+                           end) sub [])
+  | SanFrag c o d sub =>
+      SanFrag c o d ((fix go (l : list ssel) (acc : list ssel) :=
+                        match l with
+                        | [] => acc
+                        | x :: r => let y := norm_sel x in
+                                    go r (match y with
+                                          | SanFrag _ _ _ _ => if existsb (ssel_eqb y) acc then acc else acc ++ [y]
+                                          | _ => acc ++ [y]
+                                          end)
+                        end) sub [])
+  end.
+Definition norm_sels (l : list ssel) : list ssel :=
+  match norm_sel (SanField "" "" "" 0 l) with SanField _ _ _ _ sub => sub | _ => [] end.
+
 Definition keyed_eqb (a b : string * string * string) : bool :=
   (fst (fst a) =? fst (fst b)) && (snd (fst a) =? snd (fst b)) && (snd a =? snd b).
 Definition scrub_eq (m : scrub) (o : list (string * string * string)) : bool :=
@@ -138,7 +167,7 @@ Definition scrub_eq (m : scrub) (o : list (string * string * string)) : bool :=
   forallb (fun e => existsb (keyed_eqb e) o) mk && forallb (fun e => existsb (keyed_eqb e) mk) o.
 Definition san_agrees (c : sancase) : bool :=
   let '(res, scr) := sanitize_op (sTm c) (sSc c) (sInput c) in
-  ssels_eqb res (sObsSel c) && scrub_eq scr (sObsScrub c).
+  ssels_eqb (norm_sels res) (norm_sels (sObsSel c)) && scrub_eq scr (sObsScrub c).
 
 Inductive c2 := CStep (c : c2case) | CPlan (p : plancase) | CSan (s : sancase).
 Definition agrees2 (c : c2) : bool := match c with CStep s => agrees s | CPlan p => plan_agrees p | CSan s => san_agrees s end.
